@@ -14,7 +14,7 @@ tvars == <<vars, l, on>>
 
 ThisDesign == [UnlockAt |-> UnlockAt, RefRelease |-> RefRelease, SeqAtomic |-> SeqAtomic,
                DryRunAllocates |-> DryRunAllocates, DryRunPublishes |-> DryRunPublishes,
-               RevertEventSwapped |-> RevertEventSwapped, ReplayFromRequest |-> ReplayFromRequest, MetaSourceLocked |-> MetaSourceLocked,
+               RevertEventSwapped |-> RevertEventSwapped, ReplayFromRequest |-> ReplayFromRequest, SeedTx |-> SeedTx, LookupErrorIgnored |-> LookupErrorIgnored, MetaSourceLocked |-> MetaSourceLocked,
            AckWaitsPersist |-> AckWaitsPersist, IkSpan |-> IkSpan, RevertGuard |-> RevertGuard,
            MetaLogsCarryIk |-> MetaLogsCarryIk, CancelAbortsWait |-> CancelAbortsWait]
 
@@ -29,7 +29,7 @@ InitWith(r) ==
     /\ lastLog = LastLogIdOf(InitStore) /\ lastTx = LastTxIdOf(InitStore)
     /\ refs = {} /\ rl = [a \in LockAccts |-> 0] /\ wl = {} /\ lq = <<>> /\ seqOwner = "none"
     /\ pending = <<>> /\ inflight = <<>> /\ doneSet = {}
-    /\ resp = [p \in Procs |-> NoResp] /\ events = <<>> /\ gen = 0 /\ crashes = 0 /\ cancelled = {}
+    /\ resp = [p \in Procs |-> NoResp] /\ events = <<>> /\ gen = 0 /\ crashes = 0 /\ rfail = 0 /\ cancelled = {}
 
 TraceInit == InitWith([p \in Procs |-> Palette[1]]) /\ l = 0 /\ on = FALSE
 
@@ -52,12 +52,19 @@ TraceReset ==
             /\ store' = InitStore /\ lastLog' = LastLogIdOf(InitStore) /\ lastTx' = LastTxIdOf(InitStore)
             /\ refs' = {} /\ rl' = [a \in LockAccts |-> 0] /\ wl' = {} /\ lq' = <<>> /\ seqOwner' = "none"
             /\ pending' = <<>> /\ inflight' = <<>> /\ doneSet' = {}
-            /\ resp' = [p \in Procs |-> NoResp] /\ events' = <<>> /\ gen' = 0 /\ crashes' = 0 /\ cancelled' = {}
+            /\ resp' = [p \in Procs |-> NoResp] /\ events' = <<>> /\ gen' = 0 /\ crashes' = 0 /\ rfail' = 0 /\ cancelled' = {}
        ELSE UNCHANGED vars
 
 TraceStep ==
     /\ More /\ on /\ E.ev = "step" /\ E.a = "step" /\ l' = l + 1 /\ on' = on
     /\ Step(E.p)
+    /\ pc'[E.p] = E.at
+    /\ E.at = "finished" => (resp'[E.p].st = E.rs /\ resp'[E.p].code = E.code /\ resp'[E.p].txid = E.txid)
+    /\ Bound
+
+TraceReadFail ==
+    /\ More /\ on /\ E.ev = "step" /\ E.a = "readfail" /\ l' = l + 1 /\ on' = on
+    /\ ReadFail(E.p)
     /\ pc'[E.p] = E.at
     /\ E.at = "finished" => (resp'[E.p].st = E.rs /\ resp'[E.p].code = E.code /\ resp'[E.p].txid = E.txid)
     /\ Bound
@@ -81,6 +88,6 @@ TraceSkip ==
 
 Finished == ~More /\ UNCHANGED tvars
 
-TraceNext == TraceReset \/ TraceStep \/ TracePersist \/ TraceCancel \/ TraceCrash \/ TraceSkip \/ Finished
+TraceNext == TraceReset \/ TraceStep \/ TraceReadFail \/ TracePersist \/ TraceCancel \/ TraceCrash \/ TraceSkip \/ Finished
 TraceSpec == TraceInit /\ [][TraceNext]_tvars
 =============================================================================
